@@ -409,6 +409,162 @@ pub fn check_pivot(c: &PivotCase) -> Verdict {
     }
 }
 
+
+// ---------------------------------------------------------------------------
+// degenerate target states x option combinations
+// ---------------------------------------------------------------------------
+
+#[derive(Debug, Clone, PartialEq, Eq, Hash, Serialize, Deserialize)]
+pub struct DegCase {
+    /// 0 = killed but not yet reaped (zombie, no threads can be stopped), 1 = gone (reaped: no such
+    /// process), 2 = every thread held by another tracer (none can be attached), 3 = already
+    /// group-stopped by SIGSTOP before the request, 4 = ordinary live target
+    pub state: u8,
+    /// parked threads besides the main thread
+    pub threads: u8,
+    /// 0 none, 1 = 0, 2 = 1, 3 = generated small value, 4 = u64::MAX, 5 = around 64 KiB
+    pub limit: u8,
+    pub limit_val: u32,
+    pub sanitize: bool,
+    /// skip-unreferenced with a principal address: 0 off, 1 unmapped, 2 inside a stack, 3 zero, 4 top
+    pub skip: u8,
+    /// crash context: 0 none, 1 rip/rsp in mappings, 2 unmapped, 3 top of the address space
+    pub crash: u8,
+    pub app: bool,
+    /// 0 generous, 1 = 0 ms, 2 = 1 ms, 3 = Duration::MAX
+    pub stop_timeout: u8,
+    pub blamed_other: bool,
+}
+
+pub fn check_degenerate(c: &DegCase) -> Verdict {
+    use crate::vcore::dest::Dest;
+    use crate::vcore::regs::*;
+    use crate::vcore::target::*;
+    use crate::vcore::world::*;
+    init_scratch();
+    let scratch = Target::new_scratch();
+    let mut b = Builder::new();
+    let n = c.threads % 27;
+    let mut stacks = vec![];
+    let mut ids = vec![];
+    for i in 0..n {
+        let st = b.add_stack(2, i % 2 == 0, 70 + i as u64);
+        ids.push(b.add_thread(K_PARKED, Some(format!("d{i}").into_bytes()), st.base + 0x1000 + 16 * i as u64, 700 + i as u64));
+        stacks.push(st);
+    }
+    let (_, appmap) = b.add_anon(2, 3, 0xD6);
+    let (_, ipmap) = b.add_anon(1, 5, 0xD7);
+    let spec = b.spec.clone();
+    let t = match Target::spawn(&spec, scratch) {
+        Ok(t) => t,
+        Err(e) => return Verdict::Inconclusive(format!("target setup: {}", e.split(':').next().unwrap_or(""))),
+    };
+    if !t.wait_settled(&spec) {
+        return Verdict::Inconclusive("target did not settle".into());
+    }
+    let pid = t.pid;
+    let tids: Vec<i32> = std::iter::once(pid).chain(ids.iter().map(|i| t.tid(*i))).collect();
+    let mut classes = vec![];
+    let state = c.state % 5;
+    match state {
+        0 | 1 => {
+            unsafe { libc::kill(pid, libc::SIGKILL) };
+            let dl = std::time::Instant::now() + std::time::Duration::from_millis(2000);
+            while t.thread_status(pid).map(|(s, _)| s != 'Z').unwrap_or(false) && std::time::Instant::now() < dl {
+                std::thread::sleep(std::time::Duration::from_micros(300));
+            }
+            if state == 1 {
+                let mut st = 0;
+                unsafe { libc::waitpid(pid, &mut st, libc::__WALL) };
+                classes.push("target:gone".to_string());
+            } else {
+                classes.push("target:zombie".to_string());
+            }
+        }
+        2 => {
+            for tid in &tids {
+                unsafe { libc::ptrace(libc::PTRACE_SEIZE, *tid, 0, 0) };
+            }
+            classes.push("target:all-threads-held-by-another-tracer".to_string());
+        }
+        3 => {
+            unsafe { libc::kill(pid, libc::SIGSTOP) };
+            let dl = std::time::Instant::now() + std::time::Duration::from_millis(2000);
+            while t.thread_status(pid).map(|(s, _)| s != 'T').unwrap_or(false) && std::time::Instant::now() < dl {
+                std::thread::sleep(std::time::Duration::from_micros(300));
+            }
+            classes.push("target:already-stopped".to_string());
+        }
+        _ => classes.push("target:live".to_string()),
+    }
+    let blamed = if c.blamed_other && tids.len() > 1 { tids[1] } else { pid };
+    let mut o = DumpOpts { blamed, sanitize: c.sanitize, ..Default::default() };
+    o.size_limit = match c.limit % 6 {
+        0 => None,
+        1 => Some(0),
+        2 => Some(1),
+        3 => Some(c.limit_val as u64 % 200_000),
+        4 => Some(u64::MAX),
+        _ => Some(65536 + (c.limit_val as u64 % 4096) - 2048),
+    };
+    if o.size_limit.is_some() {
+        classes.push(format!("limit:{}", ["", "0", "1", "small", "max", "around-64KiB"][c.limit as usize % 6]));
+    }
+    if n > 20 {
+        classes.push("more-than-20-threads".to_string());
+    }
+    match c.skip % 5 {
+        0 => {}
+        k => {
+            o.skip_unreferenced = true;
+            o.principal = Some(match k {
+                1 => 0x3000_0000_0000,
+                2 => stacks.first().map(|s| s.base + 8).unwrap_or(appmap),
+                3 => 0,
+                _ => u64::MAX,
+            });
+        }
+    }
+    if c.crash % 4 != 0 {
+        let mut sd = 11u64;
+        let mut gregs: Vec<i64> = (0..23).map(|_| splitmix(&mut sd) as i64).collect();
+        let (rip, rsp) = match c.crash % 4 {
+            1 => (ipmap + 100, stacks.first().map(|s| s.base + 0x1100).unwrap_or(appmap + 64)),
+            2 => (0x3000_0000_0000, 0x3000_0000_1000),
+            _ => (u64::MAX, u64::MAX - 7),
+        };
+        gregs[REG_RIP] = rip as i64;
+        gregs[REG_RSP] = rsp as i64;
+        o.crash = Some(CrashContext2 { gregs, fp: fpstate_of_fx(&sentinel_fx(3)), signo: 11, code: 1, addr: 0x10, tid: blamed });
+    }
+    if c.app {
+        o.app_memory.push((appmap + 3, 5000));
+    }
+    o.stop_timeout_ms = match c.stop_timeout % 4 {
+        0 => None,
+        1 => Some(0),
+        2 => Some(1),
+        _ => Some(u64::MAX),
+    };
+    if (state == 0 || state == 2) && c.stop_timeout % 4 == 3 {
+        // a zombie, or a process whose threads sit in another tracer's stops, never reports the
+        // stopped state: "wait indefinitely" is what the caller asked for
+        o.stop_timeout_ms = Some(5);
+    }
+    let mut w = make_writer(pid, &o);
+    let mut dest = Dest::new(vec![], 0);
+    let out = with_watchdog(30.0, || run_dump(&mut w, &mut dest));
+    if state == 3 {
+        unsafe { libc::kill(pid, libc::SIGCONT) };
+    }
+    match out {
+        DumpOutcome::Ok(_) => classes.push("ok".to_string()),
+        DumpOutcome::Err(e) => classes.push(format!("err:{}", e.split('(').next().unwrap_or(""))),
+        DumpOutcome::Panic(loc, msg) => return panic_verdict(&loc, &msg),
+    }
+    Verdict::pass_c(Some(fp_json(c)), classes)
+}
+
 // ---------------------------------------------------------------------------
 // hostile memory-map texts (names the kernel can report) through the parser the dumper uses
 // ---------------------------------------------------------------------------
@@ -478,6 +634,19 @@ pub fn run(ctx: &mut LaneCtx) {
     );
     ctx.run_sub(
         SubSpec {
+            name: "degenerate-targets",
+            cases: (640, 20_000),
+            rule: "target state {killed and not reaped (zombie: nothing can be stopped), gone (no such process), every thread held by another tracer (nothing can be attached), already group-stopped, ordinary} with 0..26 parked threads x size limit {none, 0, 1, 0..200000, around 64 KiB, u64::MAX} x sanitize x skip-unreferenced with principal address {unmapped, in a stack, 0, top} x crash context {none, in mappings, unmapped, top of the address space} x app memory x stop timeout {generous, 0, 1 ms, Duration::MAX} x blamed thread main/other; oracle = the request returns Ok or Err within the watchdog, no panic; every case non-trivial; distinct = hash of case",
+            strategy: ((0u8..5, prop_oneof![3 => 0u8..6, 1 => 19u8..27], 0u8..6, any::<u32>(), any::<bool>()), (0u8..5, 0u8..4, any::<bool>(), 0u8..4, any::<bool>()))
+                .prop_map(|((state, threads, limit, limit_val, sanitize), (skip, crash, app, stop_timeout, blamed_other))| DegCase { state, threads, limit, limit_val, sanitize, skip, crash, app, stop_timeout, blamed_other })
+                .boxed(),
+            max_shrink_iters: 100,
+            log_current: true,
+        },
+        check_degenerate,
+    );
+    ctx.run_sub(
+        SubSpec {
             name: "dev-rule",
             cases: (160, 6_000),
             rule: "targets mapping 1..4 files that live under /dev/shm (>= 4096 bytes, offset 0, executable or not; content valid ELF with id and SONAME / with id but without SONAME / without id / non-ELF / ELF with unreadable program headers; optionally unlinked) with an inotify watch (IN_OPEN|IN_ACCESS) installed on each after the target finished mapping; oracle = no inotify event during the dump; non-trivial = at least one watched file; distinct = hash of case",
@@ -541,6 +710,7 @@ pub fn replay(sub: &str, case: &Value) -> Verdict {
         "live-hostile" => replay_case::<crate::props::c01::Case>(case, check_live),
         "arena-hostile-elf" => replay_case::<crate::props::c14::KitCase>(case, check_arena_elf),
         "dev-rule" => replay_case::<DevCase>(case, check_dev),
+        "degenerate-targets" => replay_case::<DegCase>(case, check_degenerate),
         "live-pivot-names" => replay_case::<PivotCase>(case, check_pivot),
         "maps-text" => replay_case::<MapsCase>(case, check_maps_text),
         _ => Verdict::Inconclusive(format!("unknown sub {sub}")),
